@@ -397,8 +397,26 @@ class Inliner:
         self.log = []
 
     # -- policy
-    def target_function(self, call):
+    def delegation(self, call, caller_key):
+        """An overload handing its work to a sibling overload of the same name on the same object
+        (`add_x(const Generic&) { ...; return add_x(item); }`): the sibling's body is part of what the caller does."""
         cal = call.get("callee") or {}
+        caller = self.facts.functions.get(caller_key) if caller_key else None
+        if caller is None or not cal.get("inrepo") or cal.get("virtual"):
+            return False
+        if strip_targs(cal.get("qn") or "") != strip_targs(caller.get("qn") or "") or cal.get("cls") in API_CLASSES:
+            return False
+        if call.get("k") == "MCall" and ir.path(call.get("recv")) != ("this",):
+            return False
+        f = _lookup(self.facts, cal)
+        return f is not None and f["key"] != caller_key
+
+    def target_function(self, call, caller_key=None):
+        cal = call.get("callee") or {}
+        if self.delegation(call, caller_key):
+            f = _lookup(self.facts, cal)
+            if f.get("body_raw", f.get("body")) is not None:
+                return f
         if cal.get("cls") in API_CLASSES and cal.get("access", 0) == 0:
             return None
         if not cal.get("inrepo") or cal.get("virtual") or cal.get("ctor") or cal.get("dtor") or cal.get("lambda"):
@@ -799,11 +817,11 @@ class Inliner:
                 return None
             args = call["args"][1:]
             return params, body, None, "lambda", True, cid, args
-        f = self.target_function(call)
+        f = self.target_function(call, stack[-1] if stack else None)
         if f is None:
             return None
         nb = self.normalised_body(f, stack)
-        if nb is None or not self.inlinable(f, nb):
+        if nb is None or not (self.inlinable(f, nb) or self.delegation(call, stack[-1] if stack else None)):
             return None
         recv = call.get("recv") if call.get("k") == "MCall" else None
         return f["params"], nb, recv, f["qn"], False, f["key"], call.get("args", [])
